@@ -260,7 +260,7 @@ func clManifestsAfterSuccess(c *Ctx) {
 			}
 			for _, hin := range p.Info(h).Instrs {
 				if isWriteFile(hin) {
-					writes = append(writes, wsite{f, in, pathLabel(callOf(hin).Args[0])})
+					writes = append(writes, wsite{f, in, pathLabelAt(callOf(hin).Args[0], h, in)})
 					helperOf[in] = h
 				}
 			}
